@@ -629,6 +629,29 @@ func c15SendJoin(c *mon.Ctx, r *gen.Rand, sc *simScenario, b *simBranch) {
 				StoreSenderIDFromPublicID: func(ctx context.Context, senderID spec.SenderID, userID string, id spec.RoomID) error { return nil }})
 			c15verdict(c, "send_join", name, allTrue(vec), err == nil, vecName(names, vec), s.ver)
 			if allTrue(vec) && err == nil {
+				{
+					// a key ring that gives up without saying so: no verdicts, no error. No verdict is no signature. (The event
+					// here is one the requesting server did NOT validly sign - its signature entry damaged - so that only a
+					// verdict could have told.)
+					tv := ref.MustParse(evJSON)
+					if sg := tv.Get("signatures").Get("other.example"); sg != nil && sg.K == ref.Obj && len(sg.O) > 0 {
+						sg.Set(sg.O[0].Key, ref.S("AAAAAAAAAAAAAAAAAAAAAAAAAAAAAAAAAAAAAAAAAAAAAAAAAAAAAAAAAAAAAAAAAAAAAAAAAAAAAAAAAAAAAA"))
+						bad := gen.Plain().Bytes(tv)
+						var ferr error
+						var fresp *gmsl.HandleSendJoinResponse
+						_, _, pan := mon.Guard(func() {
+							fresp, ferr = gmsl.HandleSendJoin(gmsl.HandleSendJoinInput{Context: context.Background(), RoomID: roomID, EventID: eventID, JoinEvent: bad, RoomVersion: s.ver, RequestOrigin: origin,
+								LocalServerName: spec.ServerName(c15local), KeyID: gmsl.KeyID(local.KeyID), PrivateKey: local.Priv, Verifier: silentVerifier{}, MembershipQuerier: &c15querier{membership: existing}, UserIDQuerier: userIDForSender,
+								StoreSenderIDFromPublicID: func(ctx context.Context, senderID spec.SenderID, userID string, id spec.RoomID) error { return nil }})
+						})
+						c.Count("handler_calls_with_a_failing_callback")
+						if pan {
+							c.Count("handler_panics_on_a_key_ring_that_answers_nothing")
+						} else if ferr == nil && fresp != nil && fresp.JoinEvent != nil {
+							c.Failf("send_join:succeeds-although-a-callback-failed:VerifierAnswersNothing", "HandleSendJoin accepts and signs a join whose origin signature is invalid when the key ring answers with no verdicts and no error")
+						}
+					}
+				}
 				for _, f := range []string{"CurrentMembership", "UserIDQuerier", "Verifier"} {
 					fq := &c15querier{membership: existing, fail: f}
 					failed := 0
@@ -1224,4 +1247,11 @@ type failingVerifier struct{ n *int }
 func (f failingVerifier) VerifyJSONs(ctx context.Context, requests []gmsl.VerifyJSONRequest) ([]gmsl.VerifyJSONResult, error) {
 	*f.n++
 	return nil, errors.New("scripted fault")
+}
+
+// silentVerifier answers with no verdicts and no error.
+type silentVerifier struct{}
+
+func (silentVerifier) VerifyJSONs(ctx context.Context, requests []gmsl.VerifyJSONRequest) ([]gmsl.VerifyJSONResult, error) {
+	return nil, nil
 }
